@@ -66,6 +66,19 @@ inline std::condition_variable Gcv;
 inline std::vector<waiter *> waiters;
 inline int blocked = 0;      // parked worker threads (a notified / timed-out waiter stops counting at once)
 inline int nthreads = 0;     // worker threads of the case
+inline bool stall_clock = false;         // a worker thread that reads the clock parks until released (stop-race scenario)
+inline bool stalled = false;             // ... and one is parked there
+inline std::thread::id main_thread;
+inline std::atomic<int> lock_waiters{0}; // threads blocked in verif_mutex::lock
+inline void stall_point() {
+    std::unique_lock g(G);
+    if (!stall_clock || std::this_thread::get_id() == main_thread) return;
+    stalled = true;
+    ++blocked;
+    Gcv.notify_all();
+    Gcv.wait(g, [] { return !stall_clock; });
+    stalled = false;
+}
 
 inline void quiesce() {
     std::unique_lock g(G);
@@ -102,6 +115,7 @@ struct verif_system_clock {
     using time_point = std::chrono::time_point<verif_system_clock, duration>;
     static constexpr bool is_steady = false;
     static time_point now() noexcept {
+        if (!vt::single_thread) vt::stall_point();
         // virtual time only advances in wait_until: a thread that keeps reading the clock without ever blocking spins
         if (++vt::reads > 200000) vt::fatal("livelock: the scheduling thread polls the clock without ever blocking", 46);
         return time_point(duration(vt::now_ticks.load()));
@@ -119,7 +133,9 @@ public:
     void lock() {
         if (_owner.load(std::memory_order_relaxed) == std::this_thread::get_id())
             vt::fatal("self-deadlock: mutex locked again by the thread that owns it", 42);
+        ++vt::lock_waiters;
         _m.lock();
+        --vt::lock_waiters;
         _owner.store(std::this_thread::get_id(), std::memory_order_relaxed);
     }
     bool try_lock() {
@@ -587,7 +603,87 @@ static void run_mt(std::istream &in, const std::string &kind, int nthr) {
     }
 }
 
+// ------------------------------------------------------------------------------------------------
+// stop race (thread mode): the scheduler is destroyed while its worker is between its stop check and its wait.
+//   case <n> stoprace <tp>
+//   go        worker parked; the clock read that follows the worker's stop check is stalled; sleep_until(tp) wakes the
+//             worker (it passes the stop check and stalls); another thread runs ~scheduler up to the point where its stop
+//             notification is out (or blocked on the scheduler mutex); the worker is released.
+//             prints `go destroyed=<0|1>`: whether ~scheduler returned without the clock having to reach <tp>
+// ------------------------------------------------------------------------------------------------
+static void run_stoprace(std::istream &in, long long tp) {
+    std::string line;
+    std::vector<std::string> evs;
+    while (std::getline(in, line)) {
+        auto w = vh::split(line);
+        if (w.empty()) continue;
+        if (w[0] == "end") {
+            vh::emit("end", evs);
+            return;
+        }
+        if (w[0] != "go") {
+            std::cout << "bad-op\n";
+            continue;
+        }
+        vt::single_thread = false;
+        vt::now_ticks = 0;
+        vt::waiters.clear();
+        vt::blocked = 0;
+        vt::nthreads = 1;
+        std::thread thr;
+        std::unique_ptr<sch_t> sch(new sch_t(thr));
+        vt::watch_cv = sch->cond_addr();
+        vt::quiesce();
+        vh::fut_set<void> sl("sleep");
+        {
+            std::lock_guard g(vt::G);
+            vt::stall_clock = true;
+        }
+        sl.add([&] { return sch->sleep_until(TP(tp), ID(1)); });   // notifies: the worker re-checks stop and reads the clock
+        vt::quiesce();                                            // ... where it stalls
+        unsigned long n0 = vt::notifies;
+        std::atomic<bool> done{false};
+        std::thread destroyer([&] {
+            sch.reset();
+            std::lock_guard g(vt::G);
+            done = true;
+            vt::Gcv.notify_all();
+        });
+        // wait until the stop notification went out, or its sender is blocked on the scheduler mutex
+        for (int i = 0; vt::notifies == n0 && vt::lock_waiters == 0; ++i) {
+            if (i > 30000) vt::fatal("hang: ~scheduler neither notified nor blocked", 43);
+            std::this_thread::sleep_for(std::chrono::milliseconds(1));
+        }
+        {
+            std::unique_lock g(vt::G);
+            vt::stall_clock = false;
+            --vt::blocked;
+            vt::Gcv.notify_all();
+            // ~scheduler returns promptly unless the notification was lost; give it 3 s of real time
+            vt::Gcv.wait_for(g, std::chrono::seconds(3), [&] { return done.load(); });
+        }
+        bool prompt = done;
+        if (!prompt) {
+            // the worker is parked until <tp> with the stop request pending: only the deadline wakes it
+            std::lock_guard g(vt::G);
+            vt::now_ticks = tp;
+            long long nowv = tp;
+            vt::wake_lk([&](const vt::waiter &x) { return x.deadline <= nowv; }, false);
+        }
+        destroyer.join();
+        if (thr.joinable()) thr.join();
+        vt::nthreads = 0;
+        vt::single_thread = true;
+        vt::watch_cv = nullptr;
+        std::size_t e0 = evs.size();
+        sl.poll(evs);
+        for (std::size_t i = e0; i < evs.size(); ++i) evs[i] += "@" + std::to_string(vt::now_ticks.load());
+        vh::emit(std::string("go destroyed=") + (prompt ? "1" : "0"), evs);
+    }
+}
+
 int main() {
+    vt::main_thread = std::this_thread::get_id();
     std::string line;
     while (std::getline(std::cin, line)) {
         auto w = vh::split(line);
@@ -598,6 +694,7 @@ int main() {
         const std::string kind = w.size() > 2 ? w[2] : "";
         if (kind == "man") run_manual(std::cin);
         else if (kind == "run") run_start(std::cin, w.size() > 3 ? atoll(w[3].c_str()) : 0);
+        else if (kind == "stoprace") run_stoprace(std::cin, w.size() > 3 ? atoll(w[3].c_str()) : 50);
         else if (kind == "thr" || kind == "pool") run_mt(std::cin, kind, w.size() > 3 ? atoi(w[3].c_str()) : 2);
         else std::cout << "bad-kind\n";
         std::cout.flush();
